@@ -12,10 +12,15 @@ use std::collections::VecDeque;
 use std::panic::{catch_unwind, AssertUnwindSafe};
 
 fn run(rt: &tokio::runtime::Runtime, raw: &[u8], cuts: &[usize]) -> Result<Vec<Vec<u8>>, String> {
-    // cuts: strictly increasing byte counts in 1..len-1; chunks are further split at 1024
+    // cuts: non-decreasing byte counts in 0..=len; chunks are further split at 1024.  A repeated
+    // cut (or a cut at 0 / len) is an EMPTY read: legal for the message-oriented sources (an empty
+    // datagram or WebSocket message) and for the Mem hook, whose end of stream is the end of the queue
     let mut chunks: VecDeque<Vec<u8>> = VecDeque::new();
     let mut lo = 0;
-    for &c in cuts.iter().chain(std::iter::once(&raw.len())) {
+    for (i, &c) in cuts.iter().chain(std::iter::once(&raw.len())).enumerate() {
+        if c == lo && i < cuts.len() {
+            chunks.push_back(Vec::new());
+        }
         let mut a = lo;
         while a < c {
             let b = (a + 1024).min(c);
@@ -114,6 +119,16 @@ fn main() {
             }
         }
         chunkings.push((1..n).collect()); // 1-byte dribble
+        // empty reads: before the first byte, after the last one, between two halves, inside the
+        // look-ahead of the first frame, and two in a row
+        chunkings.push(vec![0]);
+        chunkings.push(vec![n]);
+        for c in [1usize, 2, 9, 10, 11, 22, 23, 24, n / 2, n.saturating_sub(1)] {
+            if c >= 1 && c < n {
+                chunkings.push(vec![c, c]);
+                chunkings.push(vec![c, c, c]);
+            }
+        }
         for k in 2..=32usize {
             chunkings.push((1..n).filter(|c| c % k == 0).collect());
         }
@@ -121,7 +136,9 @@ fn main() {
             let m = 1 + rng.below(8) as usize;
             let mut cs: Vec<usize> = (0..m).map(|_| 1 + rng.below((n - 1) as u64) as usize).collect();
             cs.sort();
-            cs.dedup();
+            if rng.below(4) != 0 {
+                cs.dedup(); // one random chunking in four keeps its repeated cuts (empty reads)
+            }
             chunkings.push(cs);
         }
         if let Some(extra) = v.get("chunkings").and_then(|x| x.as_array()) {
